@@ -33,6 +33,7 @@ CONSTANTS
     NGroups,            \* set of group counts
     Caps, Socs, SocLo, SocHi, BatBnds, InvBnds,     \* alphabet of the first battery / inverter of a group
     Caps2, Socs2, BatBnds2, InvBnds2,               \* alphabet of further batteries / inverters
+    Lims2,              \* SoC limits <<lower, upper>> of further batteries (the first one has SocLo, SocHi)
     Shapes1, ShapesR,   \* sets of <<#batteries, #inverters>> for group 1 / the other groups
     Mags, Exps,         \* request magnitudes (besides the advertised bounds themselves), exponents
     SCd, Tol            \* fixed-point digits and tolerance (in fixed-point units)
@@ -412,7 +413,7 @@ DistClauses == <<"Conservation", "SignOfRequest", "RemainderSignAndMagnitude",
 (* Input space *)
 
 BatSet1 == {[cap |-> c, soc |-> s, slo |-> SocLo, shi |-> SocHi, b |-> b] : c \in Caps, s \in Socs, b \in BatBnds}
-BatSet2 == {[cap |-> c, soc |-> s, slo |-> SocLo, shi |-> SocHi, b |-> b] : c \in Caps2, s \in Socs2, b \in BatBnds2}
+BatSet2 == {[cap |-> c, soc |-> s, slo |-> l[1], shi |-> l[2], b |-> b] : c \in Caps2, s \in Socs2, l \in Lims2, b \in BatBnds2}
 GroupsOfShape(sh) ==
     {g \in {[bats |-> [k \in 1..sh[1] |-> IF k = 1 THEN b1 ELSE br[k]],
              invs |-> [k \in 1..sh[2] |-> IF k = 1 THEN i1 ELSE ir[k]]] :
